@@ -942,7 +942,7 @@ class Emitter:
             alias = 'void vp_call_void_ptr(uint64_t fn, uint64_t a0) { %s(fn, a0); }\n' % self.dispatch[('void(uint64_t)', None)][0]
         else:
             self.dispatch[('void(uint64_t)', None)] = ('vp_call_void_ptr', VOID, [PTR], None)
-        disp = self.emit_dispatchers() + '\n' + alias + self.emit_exc_dtor_dispatcher()
+        disp = self.emit_dispatchers() + '\n' + alias + self.emit_exc_dtor_dispatcher() + '\n' + self.emit_vcall_void()
         init = self.emit_init()
         hdr += ['VP_THREAD_LOCAL uint8_t %s;' % g for g in self.guards]
         return '\n'.join(hdr) + '\n' + '\n'.join(self.dispatch_protos()) + '\n' + '\n'.join(body) + '\n' + disp + '\n' + init
@@ -1008,6 +1008,30 @@ class Emitter:
             if nm != 'vp_call_void_ptr':
                 out.append('%s %s(%s);' % (self.ctype(ret), nm, ps))
         return out
+
+    def emit_vcall_void(self):
+        """vp_vcall_void(obj, slot): obj->vptr[slot](obj) for void(ptr) virtual functions; used by the runtime's std::thread model."""
+        out = ['void vp_vcall_void(uint64_t obj, uint32_t slot) {', '  uint64_t vptr = vp_ld(obj, 8);']
+        livevt = self.rta()[1]
+        for (ap, fns, gname) in self.vtables:
+            if gname not in livevt:
+                continue
+            for k, fn in enumerate(fns):
+                if fn is None or cid(fn) == '__cxa_pure_virtual':
+                    continue
+                f = self.mod.funcs[fn]
+                try:
+                    if f.vararg or len(f.params) != 1 or self.ctype(f.ret) != 'void' or self.ctype(f.params[0][0]) != 'uint64_t':
+                        continue
+                except Unsupported:
+                    continue
+                if 'Thread' not in gname and 'thread' not in gname and '_State' not in gname:
+                    continue  # only std::thread::_State implementations are ever called this way
+                self.extern_used.setdefault(fn, True)
+                out.append('  if (vptr == %dUL && slot == %d) { %s(obj); return; }' % (ap, k, self.fname(fn)))
+        out.append('  VP_FAIL("vp_vcall_void: unknown vtable / slot");')
+        out.append('}')
+        return '\n'.join(out)
 
     def emit_exc_dtor_dispatcher(self):
         """vp_call_exc_dtor: only functions that appear as the destructor argument of a __cxa_throw in this module."""
